@@ -9,7 +9,7 @@ LEVEL_TEXT = ("discrete_SIR: every distinct behaviour of the transmission rule (
               "whole trajectories (edge subsets) equals the exact chain's, in both return modes.")
 LEVEL_NOTE = "trusted: step/BFS reference and exact chain in eonmc/fam_discrete.py; p in {0,0.3,1}; <=3 (4) nodes; SIS horizon 3 steps from every start set"
 RULE = "one spec = (entry point, graph, initial sets, horizon, return mode[, p]); all rule tables / all draw outcomes enumerated; non-trivial = trajectory with >=1 step"
-BOUNDS = {"quick": "all graphs on <=3 nodes + P4,C4; |I0|<=2,|R0|<=1; 4 horizons incl. non-integer gap; recovery rule with <=2 refusals; p in {0,0.3,1}",
+BOUNDS = {"quick": "all graphs on <=3 nodes + P4,C4; |I0|<=2,|R0|<=1; 4 horizons incl. non-integer gap; recovery rule with <=2 refusals; rules answering numpy.bool_ / 0-1; extra args tuple; 3 graphs with self-loops; p in {0,0.3,1}",
           "thorough": "adds S4,paw,K4 and all horizons on 4 nodes"}
 ASSUMPTIONS = ["rules are functions of (u,v[,step]) - stateless user rules", "small-scope hypothesis"]
 
